@@ -592,7 +592,7 @@ def _extract_waveform(traces, sample, channel_ids=None, n_samples_waveforms=None
     # Extract the waveforms.
     w = traces[max(0, t0):t1][:, channel_ids]
     if not isinstance(channel_ids, slice):
-        w[:, channel_ids == -1] = 0
+        w[:, np.asarray(channel_ids) == -1] = 0
     # Deal with side effects.
     if t0 < 0:
         w = np.vstack((np.zeros((-t0, n_channels), dtype=w.dtype), w))
